@@ -54,6 +54,9 @@ type Viol struct {
 
 // Worker holds per-goroutine counters (merged at the end, no locking on the hot path).
 type Worker struct {
+	progress   int64 // atomic: ticks
+	wdSeen     int64 // watchdog only
+	wdSince    int64 // watchdog only
 	ID         int
 	Evals      int64 // cases evaluated
 	Trans      int64 // API calls whose result was compared
@@ -94,18 +97,15 @@ func (w *Worker) Sample(s interface{}) {
 
 // Begin marks the case the worker is on (for the non-termination watchdog).
 func (w *Worker) Begin(desc func() string) {
+	atomic.AddInt64(&w.progress, 1)
 	atomic.StoreInt64(&w.curStart, time.Now().UnixNano())
 	w.cur.Store(desc)
 }
 func (w *Worker) End() { atomic.StoreInt64(&w.curStart, 0) }
 
 // Tick tells the watchdog that the worker is making progress inside its unit
-// (called once per evaluated case: one build plus its queries).
-func (w *Worker) Tick() {
-	if atomic.LoadInt64(&w.curStart) != 0 {
-		atomic.StoreInt64(&w.curStart, time.Now().UnixNano())
-	}
-}
+// (called at every case boundary and inside long per-case loops; one atomic add).
+func (w *Worker) Tick() { atomic.AddInt64(&w.progress, 1) }
 
 // Report records a violation found at the unit the worker is processing.  It
 // returns false when the violation matches a known finding: the caller should
@@ -173,11 +173,13 @@ func loadKnown() []KnownFinding {
 	return f.Findings
 }
 
-// noProgressLimit: a worker that stays inside ONE case (one build plus its
-// queries; Tick marks the case boundaries) for this long is reported as
-// non-terminating.  The largest case of any check takes well under 10 s on an
-// idle machine; the limit leaves a factor of > 40 for a loaded one.
-const noProgressLimit = 420 * time.Second
+// noProgressLimit: a worker inside a unit whose tick counter (Tick: every case
+// boundary, every scan / build / rendering inside the long per-case loops) has
+// not moved for this long is reported as non-terminating.  The longest single
+// stretch between two ticks is one library call on the largest input of any
+// check (String() of an 8 000-key trie, a build of 71 540 keys: about 1 s on an
+// idle machine); the limit leaves a factor of several hundred for a loaded one.
+const noProgressLimit = 600 * time.Second
 
 // memGuardBytes: heap size at which the watchdog declares a runaway allocation.
 var memGuardBytes = uint64(14) << 30
@@ -380,7 +382,11 @@ func (r *Run) watchdog() {
 		now := time.Now().UnixNano()
 		for _, w := range r.workers {
 			st := atomic.LoadInt64(&w.curStart)
-			if st != 0 && now-st > int64(noProgressLimit) {
+			// progress-based: the clock restarts whenever the worker's tick counter moved
+			if pg := atomic.LoadInt64(&w.progress); pg != w.wdSeen {
+				w.wdSeen, w.wdSince = pg, now
+			}
+			if st != 0 && now-w.wdSince > int64(noProgressLimit) {
 				desc := "?"
 				if f, ok := w.cur.Load().(func() string); ok {
 					desc = f()
